@@ -152,6 +152,8 @@ func (w *c8world) history(kind, a int, lg *zap.Logger) {
 		if ce := lg.Check(zapcore.InfoLevel, "checked"); ce != nil {
 			ce.Write(zap.Int("a", a))
 		}
+	case 14:
+		w.probeLg.Info("entry without any field on the probe logger")
 	case 13:
 		// reflection that fails, alone or followed by more fields
 		switch a % 3 {
@@ -173,7 +175,7 @@ type c8hook struct{ w *c8world }
 
 func (h c8hook) OnWrite(*zapcore.CheckedEntry, []zapcore.Field) { h.w.hookGot++ }
 
-const c8kinds = 14
+const c8kinds = 15
 
 func runC08(c *Ctx) {
 	g, r := c.G, c.R
@@ -309,7 +311,7 @@ func runC08(c *Ctx) {
 			gate.Wait()
 			for _, s := range prog {
 				kind := s.kind
-				if kind == 10 {
+				if kind == 10 || kind == 14 {
 					kind = 0 // other tasks stay off the probe logger: its sink offsets belong to the main task
 				}
 				w.history(kind, s.a, w.others[s.lg])
